@@ -16,7 +16,7 @@ def run(patch):
             return patch, {'error': p.stderr[-200:]}
         out = {}
         for c in PROPS:
-            env = dict(os.environ, VERIF_REPO=d + '/repo', VERIF_EVIDENCE_DIR=d + '/evidence')
+            env = dict(os.environ, VERIF_REPO=d + '/repo', VERIF_EVIDENCE_DIR=d + '/evidence', VERIF_FAST='1')
             r = subprocess.run([os.path.join(VERIF, 'check'), c], cwd=VERIF, env=env, capture_output=True, text=True)
             v = [l.strip() for l in r.stdout.splitlines() if l.startswith('  [')]
             if r.returncode == 1 and v:
